@@ -19,4 +19,8 @@ CHECKS = {
             "reference DER encoder in the harness (hand-written, no encoding/asn1) is the specification",
         ],
     },
+    "_FIX": {
+        "level": "other",
+        "units": [unit("genfix", "root", [], "^TestVerifGenFixtures$", env={"VERIF_GENFIX": "1"}, timeout=1800)],
+    },
 }
